@@ -4,6 +4,8 @@
 //! text; the implementation runs read_conn / read_lexicon / resolve / compile under catch_unwind; every compiled dictionary is
 //! loaded and probe texts are analysed in modes A, B, C (debug profile).  Malformed stream: byte-level damage of valid
 //! inputs (implementation only).  Fault enumeration: a Write that accepts exactly k bytes, for every k below the total.
+//! Builder state carried over between calls: every case compiles twice on the same DictBuilder, and after every injected sink
+//! failure the same builder compiles again into a good sink.
 use crate::common::*;
 use serde_json::{json, Value};
 use std::io::Write;
@@ -209,6 +211,11 @@ struct Built {
     status: &'static str,
     msg: String,
     bytes: Vec<u8>,
+    /// outcome of a second `compile` on the same builder
+    second_status: &'static str,
+    second_same: bool,
+    second_msg: String,
+    second_bytes: Vec<u8>,
 }
 
 struct Env {
@@ -246,37 +253,125 @@ fn load_system(env: &Env) -> JapaneseDictionary {
     JapaneseDictionary::from_cfg_storage(&config(env), SudachiDicData::new(Storage::Owned(env.sys_bytes.clone()))).expect("system dictionary loads")
 }
 
-/// read_conn; read_lexicon; resolve; compile into `w`
-fn build_into<W: Write>(env: &Env, matrix: Option<&[u8]>, lexicon: &[u8], w: &mut W) -> Result<Result<(), String>, String> {
+/// one `compile` call of a session: into a sink that accepts everything, or one that accepts exactly k bytes
+#[derive(Clone, Copy, Debug)]
+enum Attempt {
+    Good,
+    Fail(usize),
+    /// a sink that takes one byte per `write` call
+    OneByte,
+}
+
+/// outcome of one compile call (or of the read stage when that already failed: then it is the only element)
+#[derive(Clone, Debug)]
+struct Attempted {
+    status: &'static str,
+    msg: String,
+    bytes: Vec<u8>,
+}
+
+fn attempts_on<D: DictionaryAccess>(b: &mut DictBuilder<D>, attempts: &[Attempt]) -> Vec<Attempted> {
+    let mut out = vec![];
+    for a in attempts {
+        let mut bytes = Vec::new();
+        let r = match a {
+            Attempt::Good => catch(|| b.compile(&mut bytes).map_err(|e| format!("compile: {}", e))),
+            Attempt::Fail(k) => {
+                let mut w = FailingWriter { limit: *k, written: 0 };
+                catch(|| b.compile(&mut w).map_err(|e| format!("compile: {}", e)))
+            }
+            Attempt::OneByte => {
+                let mut w = OneByte(vec![]);
+                let r = catch(|| b.compile(&mut w).map_err(|e| format!("compile: {}", e)));
+                bytes = w.0;
+                r
+            }
+        };
+        out.push(match r {
+            Ok(Ok(())) => Attempted { status: "SOk", msg: String::new(), bytes },
+            Ok(Err(e)) => Attempted { status: "SErr", msg: e, bytes: vec![] },
+            Err(p) => Attempted { status: "SPanic", msg: p, bytes: vec![] },
+        });
+    }
+    out
+}
+
+/// read_conn; read_lexicon; resolve once, then every compile call of `attempts` on the SAME builder.
+/// A failure of the read stage is reported as the single outcome.
+fn session(env: &Env, matrix: Option<&[u8]>, lexicon: &[u8], attempts: &[Attempt]) -> Vec<Attempted> {
+    let read_failed = |r: Result<Result<(), String>, String>| -> Option<Attempted> {
+        match r {
+            Ok(Ok(())) => None,
+            Ok(Err(e)) => Some(Attempted { status: "SErr", msg: e, bytes: vec![] }),
+            Err(p) => Some(Attempted { status: "SPanic", msg: p, bytes: vec![] }),
+        }
+    };
     match matrix {
-        Some(m) => catch(|| {
+        Some(m) => {
             let mut b = DictBuilder::new_system();
-            b.read_conn(m).map_err(|e| format!("read_conn: {}", e))?;
-            b.read_lexicon(lexicon).map_err(|e| format!("read_lexicon: {}", e))?;
-            b.resolve().map_err(|e| format!("resolve: {}", e))?;
-            b.compile(w).map_err(|e| format!("compile: {}", e))?;
-            Ok(())
-        }),
-        None => {
-            let sys = load_system(env);
-            catch(|| {
-                let mut b = DictBuilder::new_user(&sys);
+            let r = catch(|| {
+                b.read_conn(m).map_err(|e| format!("read_conn: {}", e))?;
                 b.read_lexicon(lexicon).map_err(|e| format!("read_lexicon: {}", e))?;
                 b.resolve().map_err(|e| format!("resolve: {}", e))?;
-                b.compile(w).map_err(|e| format!("compile: {}", e))?;
+                // resolving again must be harmless (everything is resolved already)
+                b.resolve().map_err(|e| format!("second resolve: {}", e))?;
                 Ok(())
-            })
+            });
+            match read_failed(r) {
+                Some(f) => vec![f],
+                None => attempts_on(&mut b, attempts),
+            }
+        }
+        None => {
+            let sys = load_system(env);
+            let mut b = DictBuilder::new_user(&sys);
+            let r = catch(|| {
+                b.read_lexicon(lexicon).map_err(|e| format!("read_lexicon: {}", e))?;
+                b.resolve().map_err(|e| format!("resolve: {}", e))?;
+                // resolving again must be harmless (everything is resolved already)
+                b.resolve().map_err(|e| format!("second resolve: {}", e))?;
+                Ok(())
+            });
+            match read_failed(r) {
+                Some(f) => vec![f],
+                None => attempts_on(&mut b, attempts),
+            }
         }
     }
 }
 
+/// two dictionaries are the same up to the creation time stored in the header (bytes 8..16)
+fn same_dict(a: &[u8], b: &[u8]) -> bool {
+    a.len() == b.len() && (a.len() < 16 || (a[..8] == b[..8] && a[16..] == b[16..]))
+}
+
+/// the standard build of every case: compile TWICE on the same builder; `second` is the outcome of the repeated call
 fn build(env: &Env, matrix: Option<&[u8]>, lexicon: &[u8]) -> Built {
-    let mut out = Vec::new();
-    match build_into(env, matrix, lexicon, &mut out) {
-        Ok(Ok(())) => Built { status: "SOk", msg: String::new(), bytes: out },
-        Ok(Err(e)) => Built { status: "SErr", msg: e, bytes: vec![] },
-        Err(p) => Built { status: "SPanic", msg: p, bytes: vec![] },
+    let mut r = session(env, matrix, lexicon, &[Attempt::Good, Attempt::Good]);
+    let first = r.remove(0);
+    let (second_status, second_same, second_msg, second_bytes) = match r.pop() {
+        Some(s) => (s.status, s.status == first.status && s.bytes == first.bytes, s.msg, s.bytes),
+        // the read stage failed: there is no compile call to repeat
+        None => (first.status, true, String::new(), vec![]),
+    };
+    Built { status: first.status, msg: first.msg, bytes: first.bytes, second_status, second_same, second_msg, second_bytes }
+}
+
+/// what the repeated compile of one builder must be: the same outcome, byte for byte
+fn check_second(env: &Env, user: bool, b: &Built, probes: &[String]) -> Option<String> {
+    if b.second_same {
+        return None;
     }
+    if b.second_status != b.status {
+        return Some(format!("first compile of the builder reported {}, a second compile on the same builder reported {} {}", b.status, b.second_status, b.second_msg));
+    }
+    let lr = load_and_analyse(env, user, &b.second_bytes, probes);
+    Some(format!(
+        "a second compile on the same builder reported success with different bytes ({} instead of {}); that output: {}",
+        b.second_bytes.len(),
+        b.bytes.len(),
+        if lr.ok { "loads".to_string() } else { lr.msg }
+    ))
 }
 
 struct LoadResult {
@@ -404,6 +499,7 @@ fn run_texts(sink: &mut Sink, env: &Env, case: Option<&Case>, matrix: Option<Str
         println!("matrix text: {:?}\nlexicon text: {:?}", matrix, lexicon);
         println!("implementation: build {} {}", b.status, b.msg);
         println!("  compiled bytes: {}; loads and analyses: {} {}", b.bytes.len(), lr.ok, lr.msg);
+        println!("  second compile on the same builder: {} {}; same outcome and bytes: {}", b.second_status, b.second_msg, b.second_same);
         println!("  matrix read back: dims {:?}, cells {:?}", lr.dims, lr.cells.iter().take(30).collect::<Vec<_>>());
     }
     let id = match case {
@@ -411,9 +507,11 @@ fn run_texts(sink: &mut Sink, env: &Env, case: Option<&Case>, matrix: Option<Str
             // the known finding is excluded from the predicate only for the analysis clause; everything else is still compared
             let analyses = lr.ok || (mismatch && lr.msg.contains("analysis"));
             let term = format!(
-                "check_build {} {} ({}, {}) {} {}",
+                "check_build {} {} {} {} ({}, {}) {} {}",
                 c.coq(),
                 b.status,
+                b.second_status,
+                cbool(b.second_same),
                 cz(lr.dims.0),
                 cz(lr.dims.1),
                 clist(lr.cells.iter().map(|(l, r, v)| format!("({}, {}, {})", cz(*l), cz(*r), cz(*v)))),
@@ -428,6 +526,9 @@ fn run_texts(sink: &mut Sink, env: &Env, case: Option<&Case>, matrix: Option<Str
     } else if b.status == "SOk" && !lr.ok {
         let cls = if mismatch && lr.msg.contains("analysis") { KNOWN_SPLIT } else { "" };
         sink.fail(id, &format!("compilation reported success, then {}", lr.msg), cls);
+    }
+    if let Some(what) = check_second(env, user, &b, &pr) {
+        sink.fail(id, &what, "");
     }
 }
 
@@ -691,68 +792,119 @@ impl Write for FailingWriter {
     }
 }
 
+struct OneByte(Vec<u8>);
+impl Write for OneByte {
+    fn write(&mut self, buf: &[u8]) -> std::io::Result<usize> {
+        if buf.is_empty() {
+            return Ok(0);
+        }
+        self.0.push(buf[0]);
+        Ok(1)
+    }
+    fn flush(&mut self) -> std::io::Result<()> {
+        Ok(())
+    }
+}
+
+/// offset of the first matrix byte in a compiled dictionary (header, POS table, the two dimensions come before it)
+fn matrix_offset(bytes: &[u8]) -> usize {
+    match sudachi::dic::grammar::Grammar::parse(bytes, 272) {
+        Ok(g) => {
+            let cm = g.conn_matrix();
+            272 + g.storage_size - 2 * cm.num_left() * cm.num_right()
+        }
+        Err(_) => 0,
+    }
+}
+
+/// one row of the fault enumeration: the sink of the first compile accepted k bytes; then the SAME builder compiled again into a
+/// sink that accepts everything
+struct Retry {
+    k: usize,
+    first: &'static str,
+    retry: &'static str,
+    retry_same_as_fresh: bool,
+}
+
+/// verdict of the Rust-side oracle on one row (None = as the property demands)
+fn judge_retry(r: &Retry, total: usize) -> Option<String> {
+    if r.first == "SPanic" || r.retry == "SPanic" {
+        return Some(format!("sink failing after {} of {} bytes: compilation panicked (first call {}, retry {})", r.k, total, r.first, r.retry));
+    }
+    if r.first == "SOk" && r.k < total {
+        return Some(format!("sink failing after {} of {} bytes was reported as success", r.k, total));
+    }
+    if r.first != "SOk" && r.k >= total {
+        return Some(format!("sink accepting {} >= {} bytes: compilation failed", r.k, total));
+    }
+    // the retry on the same builder: an error value is tolerated, success must be the dictionary of a fresh build
+    if r.retry == "SOk" && !r.retry_same_as_fresh {
+        return Some(format!(
+            "after a sink failure at byte {} of {} the same builder compiled again into a good sink and reported success, but the bytes differ from a fresh build of the same input",
+            r.k, total
+        ));
+    }
+    None
+}
+
+fn retry_rows(env: &Env, matrix: Option<&[u8]>, lexicon: &[u8], fresh: &[u8], step: usize) -> Vec<Retry> {
+    let total = fresh.len();
+    let mut rows = vec![];
+    let mut k = 0;
+    while k <= total + 1 {
+        let r = session(env, matrix, lexicon, &[Attempt::Fail(k), Attempt::Good]);
+        let first = r[0].status;
+        let (retry, same) = match r.get(1) {
+            Some(x) => (x.status, x.status == "SOk" && same_dict(&x.bytes, fresh)),
+            None => (first, false),
+        };
+        rows.push(Retry { k, first, retry, retry_same_as_fresh: same });
+        k += if k + step > total && k < total { total - k } else { step };
+    }
+    rows
+}
+
 fn fault_enumeration(sink: &mut Sink, env: &Env, rng: &mut Rng, case: &Case, step: usize) {
     let matrix = case.matrix_text(rng);
     let lexicon = case.lexicon_text();
-    let full = build(env, matrix.as_ref().map(|m| m.as_bytes()), lexicon.as_bytes());
+    let mb = matrix.as_ref().map(|m| m.as_bytes());
+    let full = build(env, mb, lexicon.as_bytes());
     if full.status != "SOk" {
         return;
     }
     let total = full.bytes.len();
-    let mut results = vec![];
-    let mut bad: Option<String> = None;
-    let mut k = 0;
-    while k <= total + 1 {
-        let mut w = FailingWriter { limit: k, written: 0 };
-        let st = match build_into(env, matrix.as_ref().map(|m| m.as_bytes()), lexicon.as_bytes(), &mut w) {
-            Ok(Ok(())) => "SOk",
-            Ok(Err(_)) => "SErr",
-            Err(p) => {
-                bad.get_or_insert(format!("sink failing after {} of {} bytes: compilation panicked: {}", k, total, p));
-                "SPanic"
+    let moff = matrix_offset(&full.bytes);
+    let rows = retry_rows(env, mb, lexicon.as_bytes(), &full.bytes, step);
+    let mut bad: Option<String> = rows.iter().filter_map(|r| judge_retry(r, total)).next();
+    // longer histories on one builder: two failed calls, a one-byte-per-call sink, then a good sink
+    for _ in 0..8 {
+        let k1 = rng.below(total as u64 + 1) as usize;
+        let k2 = rng.below(total as u64 + 1) as usize;
+        let r = session(env, mb, lexicon.as_bytes(), &[Attempt::Fail(k1), Attempt::Fail(k2), Attempt::OneByte, Attempt::Good]);
+        for (i, x) in r.iter().enumerate() {
+            let want_ok = i >= 2 || (i == 0 && k1 >= total) || (i == 1 && k2 >= total);
+            if x.status == "SPanic" || (x.status == "SOk") != want_ok || (x.status == "SOk" && !same_dict(&x.bytes, &full.bytes) && i >= 2) {
+                bad.get_or_insert(format!(
+                    "history on one builder [sink failing at {}, sink failing at {}, one byte per call, good sink]: call {} reported {} {}",
+                    k1, k2, i + 1, x.status,
+                    if x.status == "SOk" { "with bytes that differ from a fresh build" } else { x.msg.as_str() }
+                ));
             }
-        };
-        if st == "SOk" && k < total {
-            bad.get_or_insert(format!("sink failing after {} of {} bytes was reported as success", k, total));
-        }
-        if st != "SOk" && k >= total {
-            bad.get_or_insert(format!("sink accepting {} >= {} bytes: compilation failed", k, total));
-        }
-        results.push((k, st));
-        k += if k + step > total && k < total { total - k } else { step };
-    }
-    // a sink that takes one byte per call must not change the outcome
-    struct OneByte(Vec<u8>);
-    impl Write for OneByte {
-        fn write(&mut self, buf: &[u8]) -> std::io::Result<usize> {
-            if buf.is_empty() { return Ok(0); }
-            self.0.push(buf[0]);
-            Ok(1)
-        }
-        fn flush(&mut self) -> std::io::Result<()> { Ok(()) }
-    }
-    let mut ob = OneByte(vec![]);
-    match build_into(env, matrix.as_ref().map(|m| m.as_bytes()), lexicon.as_bytes(), &mut ob) {
-        Ok(Ok(())) => {
-            // the header carries the compile time: compare everything after it
-            if ob.0.len() != total || ob.0[272..] != full.bytes[272..] {
-                bad.get_or_insert("a sink accepting one byte per call changed the compiled bytes".to_string());
-            }
-        }
-        _ => {
-            bad.get_or_insert("a sink accepting one byte per call made compilation fail".to_string());
         }
     }
     sink.tag("fault_enumeration_inputs");
-    sink.tag_n("fault_enumeration_offsets", results.len() as u64);
+    sink.tag_n("fault_enumeration_offsets", rows.len() as u64);
+    sink.tag_n("retry_on_same_builder_after_sink_failure", rows.len() as u64);
     let term = format!(
-        "check_sink_all {} {} {}",
+        "check_retry_all {} {} {} {}",
         case.coq(),
         cz(total as i64),
-        clist(results.iter().map(|(k, st)| format!("({}, {})", cz(*k as i64), st)))
+        cz(moff as i64),
+        clist(rows.iter().map(|r| format!("({}, {}, {}, {})", cz(r.k as i64), r.first, r.retry, cbool(r.retry_same_as_fresh))))
     );
     let mut d = desc(case, &matrix, &lexicon, "fault_enumeration");
     d["total_bytes"] = json!(total);
+    d["matrix_offset"] = json!(moff);
     let id = sink.case(term, d, true);
     if let Some(b) = bad {
         sink.fail(id, &b, "");
@@ -795,6 +947,9 @@ fn run_raw(sink: &mut Sink, env: &Env, matrix: Option<Vec<u8>>, lexicon: Vec<u8>
         sink.fail(id, &format!("compilation panicked: {}", b.msg), "");
         return;
     }
+    if let Some(what) = check_second(env, matrix.is_none(), &b, &["あいxか1。".to_string()]) {
+        sink.fail(id, &what, "");
+    }
     if b.status == "SOk" {
         let text = String::from_utf8_lossy(&lexicon).to_string();
         let probe: String = text.chars().filter(|c| !c.is_ascii() && *c != '\u{fffd}').take(40).collect();
@@ -817,7 +972,7 @@ fn run_raw(sink: &mut Sink, env: &Env, matrix: Option<Vec<u8>>, lexicon: Vec<u8>
 pub fn run(args: &Args) {
     let mut sink = Sink::new("C06", &args.out, &["Model.GuardLang", "Model.Params", "Model.Build"], args.seed, &args.tier);
     sink.shard_size = 60;
-    sink.rule("system dictionaries (matrix text nl x nr in 0..6, square and non-square, blank lines / tabs / missing cells) and user dictionaries (against a 4x3 system dictionary) with 1..14 rows incl. compounds with split / word-structure references; structured stream = valid input with exactly one damaged aspect (row arity, left/right/cost from the boundary grid, over-long string / bad escape, dangling or malformed references, array length 127/128, mode, synonyms, empty surface; matrix: empty text, header arity / sign / non-numeric, coordinates at and beyond the dimension, negative, wrong arity); malformed stream = byte-level damage (truncation, quotes, invalid UTF-8, swaps); fault enumeration = sink accepting exactly k bytes for every k (quick: every k of small dictionaries); non-trivial = compilation failed or more than one row; distinct by generated Coq term");
+    sink.rule("system dictionaries (matrix text nl x nr in 0..6, square and non-square, blank lines / tabs / missing cells) and user dictionaries (against a 4x3 system dictionary) with 1..14 rows incl. compounds with split / word-structure references; structured stream = valid input with exactly one damaged aspect (row arity, left/right/cost from the boundary grid, over-long string / bad escape, dangling or malformed references, array length 127/128, mode, synonyms, empty surface; matrix: empty text, header arity / sign / non-numeric, coordinates at and beyond the dimension, negative, wrong arity); malformed stream = byte-level damage (truncation, quotes, invalid UTF-8, swaps); every case compiles twice on one builder (second outcome and bytes must equal the first) after resolving twice; fault enumeration = sink accepting exactly k bytes for every k (quick: every k of small dictionaries), each followed by a retry on the same builder into a good sink (Err or the bytes of a fresh build), plus longer histories [fail, fail, one byte per call, good]; non-trivial = compilation failed or more than one row; distinct by generated Coq term");
     let dir = args.work.join("c06_res");
     std::fs::create_dir_all(&dir).unwrap();
     std::fs::copy(format!("{}/sudachi/tests/resources/char.def", repo()), dir.join("char.def")).unwrap();
@@ -845,21 +1000,18 @@ pub fn run(args: &Args) {
         run_texts(&mut sink, &env, None, m.clone(), String::from_utf8_lossy(&lexicon).to_string(), "replay", true);
         if c["shape"] == "fault_enumeration" {
             let mb = m.as_ref().map(|x| x.as_bytes());
-            let total = build(&env, mb, &lexicon).bytes.len();
-            println!("fault enumeration over {} bytes:", total);
+            let fresh = build(&env, mb, &lexicon).bytes;
+            let total = fresh.len();
+            println!("fault enumeration over {} bytes (matrix starts at byte {}): first compile into a sink accepting k bytes, then a retry on the same builder into a good sink", total, matrix_offset(&fresh));
             let mut wrong = 0;
-            for k in 0..=total {
-                let mut w = FailingWriter { limit: k, written: 0 };
-                let st = match build_into(&env, mb, &lexicon, &mut w) {
-                    Ok(Ok(())) => "Ok",
-                    Ok(Err(_)) => "Err",
-                    Err(_) => "Panic",
-                };
-                if (k < total && st != "Err") || (k >= total && st != "Ok") {
+            for r in retry_rows(&env, mb, &lexicon, &fresh, 1) {
+                if let Some(what) = judge_retry(&r, total) {
                     wrong += 1;
-                    println!("  sink accepting {} of {} bytes: compilation reports {}", k, total, st);
-                    let id = sink.case_rust_only(json!({"kind": "c06-raw", "shape": "fault_enumeration_replay", "k": k}), true);
-                    sink.fail(id, &format!("sink accepting {} of {} bytes: compilation reports {}", k, total, st), "");
+                    if wrong <= 5 {
+                        println!("  k={}: first call {}, retry {}, retry equals a fresh build: {} -- {}", r.k, r.first, r.retry, r.retry_same_as_fresh, what);
+                    }
+                    let id = sink.case_rust_only(json!({"kind": "c06-raw", "shape": "fault_enumeration_replay", "k": r.k}), true);
+                    sink.fail(id, &what, "");
                 }
             }
             println!("  offsets with a wrong outcome: {}", wrong);
